@@ -85,6 +85,12 @@ def cache_key(prefix: str, _: t.Any, *args: t.Any, **kwargs: t.Any) -> t.Type[tu
     return hashkey(*args, prefix, **kwargs)
 
 
+class _EventManagerError(Exception):
+    """
+    An event manager failed while it was told about a failed attempt of a node (the cause is the manager's exception)
+    """
+
+
 @dataclass
 class DAGRunConcurrentManager(DAGRunManagerLike):
     """
@@ -368,10 +374,9 @@ class DAGRunConcurrentManager(DAGRunManagerLike):
                 **self._get_node_kwargs(node_id),
             )
 
-            await self.ctx.emit_on_node_complete(node_id=node_id, error=None)
-
-            logger.info('Getting the result after the execution, node_id=%s', node_id)
-            return result
+        except _EventManagerError as ex:
+            # The managers have already been told about the attempt; the failure of the manager ends the run
+            raise ex.__cause__ from None
 
         except Exception as ex:
             await self.ctx.emit_on_node_complete(node_id=node_id, error=ex)
@@ -381,6 +386,13 @@ class DAGRunConcurrentManager(DAGRunManagerLike):
                 return ex
 
             raise ex
+
+        # The event is emitted outside the try block: an event manager that fails in it must not make the other
+        # managers see a second completion of the same attempt, this time with the manager's error as the node's
+        await self.ctx.emit_on_node_complete(node_id=node_id, error=None)
+
+        logger.info('Getting the result after the execution, node_id=%s', node_id)
+        return result
 
     async def __execute_node(
         self,
@@ -433,7 +445,11 @@ class DAGRunConcurrentManager(DAGRunManagerLike):
 
                     raise error
 
-                await self.ctx.emit_on_node_complete(node_id=node_id, error=error)
+                try:
+                    await self.ctx.emit_on_node_complete(node_id=node_id, error=error)
+                except Exception as ex:
+                    # A failure of an event manager is not one more failure of the node
+                    raise _EventManagerError from ex
 
                 n_attempts += 1
                 await asyncio.sleep(retry_policy.delay)
